@@ -1,6 +1,6 @@
 import DadiVerif.Model.Proto
 import DadiVerif.Model.Fold
-/- driver ops for C09 (fold / unfold / reverse / misid / arithmetic templates / slicing / autofold).
+/- driver ops for C09 (fold / unfold / their input afterwards / reverse / misid / arithmetic templates / slicing / autofold).
 
    spectrum on the wire = 4 tokens:  <shape:data> <maskbits 0101…> <folded 0|1> <popids>
       popids: `-` = None, `ids:a,b` = ['a','b']
@@ -71,6 +71,12 @@ def handle (toks : List String) : Option String :=
   | ["c09.unfold", nd, bits, f, ids] => do
       let S ← parseSpec nd bits f ids
       some (showRes (unfoldSpec S))
+  | ["c09.foldself", nd, bits, f, ids] => do
+      let S ← parseSpec nd bits f ids
+      some ("ok " ++ showSpec (foldSelfAfter S))
+  | ["c09.unfoldself", nd, bits, f, ids] => do
+      let S ← parseSpec nd bits f ids
+      some ("ok " ++ showSpec (unfoldSelfAfter S))
   | ["c09.reverse", nd, bits, f, ids] => do
       let S ← parseSpec nd bits f ids
       some (showRes (.ok (reverseSpec S)))
@@ -101,6 +107,8 @@ def handle (toks : List String) : Option String :=
   | ["c09.methods"] =>
       some ("ok " ++ ",".intercalate Gen.Fold.binaryMethods ++ " " ++ ",".intercalate Gen.Fold.inplaceMethods
             ++ " " ++ ",".intercalate Gen.Fold.autofoldFunctions)
+  | ["c09.family"] =>
+      some ("ok " ++ ",".intercalate Gen.Fold.likelihoodFamily ++ " " ++ toString Gen.Fold.likelihoodStoresIntoArgs.length)
   | _ => none
 
 end DadiVerif.Driver.Fold
